@@ -242,6 +242,11 @@ class BlockDiagNormal(ssm_impl_api.AbstractTreeNormal[BlockDiagTreeFlatten]):
 
         loc_flat = tree_flatten.flatten_tree(mean)
         scale_flat = tree_flatten.flatten_tree(std)
+        if scale_flat.shape != loc_flat.shape:
+            msg = "'std' must have the same pytree structure and leaf shapes as 'mean'."
+            msg += f" Expected: {tree.tree_map(np.shape, mean)}."
+            msg += f" Received: {tree.tree_map(np.shape, std)}."
+            raise ValueError(msg)
         num_coeffs = len(mean)
 
         # Promote std into covariance matrix and apply damping
